@@ -467,7 +467,7 @@ func main() {
 	if err != nil {
 		vcommon.Harness("tempdir: %v", err)
 	}
-	defer os.RemoveAll(dir)
+	defer os.RemoveAll(dir) // Finish exits the process: the directory is also removed explicitly before it
 
 	nw := runtime.GOMAXPROCS(0)
 	chunk := 2048
@@ -568,5 +568,6 @@ func main() {
 		"level codes DEB/INF/WAR/ERR are taken as the decoding table of the level field",
 		"syslog destination is not structured and not covered; concurrency of Log calls is not part of this check",
 	}
+	os.RemoveAll(dir)
 	r.Finish()
 }
